@@ -346,7 +346,7 @@ def cfgOf (j : J) : Cfg :=
       detachOnRemove := (j.getBool? "f33").getD true,
       insertCopiesOwn := (j.getBool? "f79").getD true,
       notifyBulk := (j.getBool? "bulk").getD true,
-      sliceAtTarget := (j.getBool? "f225").getD false }
+      sliceAtTarget := (j.getBool? "f225").getD true }
 
 def outcomeToJ : Outcome → J
   | .ok => .str "ok"
